@@ -87,13 +87,21 @@ func vpH_C15_of_object() {
 	ob := &Object{ID: id, Type: NoteType}
 	set := vpBool()
 	if set {
+		// the explicit collection is given as its IRI or as an embedded collection that has that id
+		var val Item = explicit
+		switch vpChoice(3) {
+		case 1:
+			val = &OrderedCollection{ID: explicit, Type: OrderedCollectionType}
+		case 2:
+			val = &Collection{ID: explicit, Type: CollectionType, TotalItems: 3}
+		}
 		switch which {
 		case 0:
-			ob.Likes = explicit
+			ob.Likes = val
 		case 1:
-			ob.Shares = explicit
+			ob.Shares = val
 		case 2:
-			ob.Replies = explicit
+			ob.Replies = val
 		}
 	}
 	got := c.Of(ob)
@@ -123,17 +131,21 @@ func vpH_C15_of_actor() {
 	a := &Actor{ID: id, Type: PersonType}
 	set := vpBool()
 	if set {
+		var val Item = explicit
+		if vpBool() {
+			val = &OrderedCollection{ID: explicit, Type: OrderedCollectionType}
+		}
 		switch which {
 		case 0:
-			a.Inbox = explicit
+			a.Inbox = val
 		case 1:
-			a.Outbox = explicit
+			a.Outbox = val
 		case 2:
-			a.Liked = explicit
+			a.Liked = val
 		case 3:
-			a.Following = explicit
+			a.Following = val
 		case 4:
-			a.Followers = explicit
+			a.Followers = val
 		}
 	}
 	got := c.Of(a)
